@@ -31,6 +31,8 @@ func init() { register("keepalive", runKARaw) }
 
 var errScripted = errors.New("scripted ping failure")
 
+const kaSlow = 260 * time.Millisecond
+
 type kaClient struct {
 	mqtt.Client
 	mu     sync.Mutex
@@ -53,7 +55,15 @@ func (c *kaClient) Ping(ctx context.Context) error {
 		return ctx.Err()
 	}
 	switch letter {
-	case "ok":
+	case "ok", "slow":
+		if letter == "slow" {
+			// answered within the timeout but after the next tick
+			select {
+			case <-time.After(kaSlow):
+			case <-ctx.Done():
+				return ctx.Err()
+			}
+		}
 		c.mu.Lock()
 		c.pos++
 		next := "end"
@@ -109,8 +119,15 @@ func runKA(sc *KAScenario) *KAResult {
 	if len(sc.Script) == 0 || sc.Script[0] == "cancelBefore" {
 		cancel()
 	}
-	// interval 5 ms, timeout 300 ms: a scripted immediate answer can never be mistaken for a late one
-	err := mqtt.KeepAlive(ctx, cli, 5*time.Millisecond, 300*time.Millisecond)
+	// interval 5 ms, timeout 300 ms: a scripted immediate answer can never be mistaken for a late one;
+	// scripts with slow answers: interval 20 ms < latency 260 ms < timeout 400 ms
+	interval, timeout := 5*time.Millisecond, 300*time.Millisecond
+	for _, l := range sc.Script {
+		if l == "slow" {
+			interval, timeout = 20*time.Millisecond, 400*time.Millisecond
+		}
+	}
+	err := mqtt.KeepAlive(ctx, cli, interval, timeout)
 	res := "nil"
 	switch {
 	case errors.Is(err, mqtt.ErrPingTimeout):
